@@ -30,6 +30,7 @@ RULE = (
     'ile.'
     " 'pyramid' cases: the Tile objects that a Pyramid (whole / filtered / restricted to a sub-pyramid, either coordinate system, 1-3 "
     "workers) hands to visit_leaves callbacks carry the reference corners and orientation of their position."
+    ' Round 9: point lookups cut short by an asynchronous exception and then repeated.'
 )
 ASSUMPTIONS = ["reference TOAST subdivision (vlib/ref_toast.py) follows the documentation", "compiled extension as built; .pyx coherent with .c"]
 EXHAUSTIVE = {"quick": "all 1364 tiles to depth 5 in both coordinate systems", "thorough": "all 87380 tiles to depth 8 in both coordinate systems"}
